@@ -163,6 +163,23 @@ def h_ionq_refuse(env, spec):
     env.check_raises(lambda: translate_circuit(c, "ionq"), f"ionq export: {name} must be refused")
 
 
+def h_ionq_unset(env):
+    """parameterised gates whose parameter is still the unset placeholder "": the IonQ export either refuses them or the round trip
+    gives back the same gate (same name - PHASE does not turn into Z - same qubits, parameter still unset)"""
+    from tangelo.linq import Circuit, Gate
+    from tangelo.linq.translator import translate_circuit
+    for g in (Gate("PHASE", 0), Gate("CPHASE", 2, control=1), Gate("RX", 1), Gate("RZ", 0), Gate("CRY", 0, control=2), Gate("XX", [1, 3])):
+        c = Circuit([Gate("H", 0), g])
+        try:
+            c2 = translate_circuit(translate_circuit(c, "ionq"), "tangelo", source="ionq")
+        except Exception:       # a refusal is fine
+            continue
+        g2 = c2._gates[-1]
+        env.check_same((g2.name, list(g2.target), list(g2.control or []), g2.parameter in ("", None) and g2.name == g.name or g2.parameter),
+                       (g.name, list(g.target), list(g.control or []), True),
+                       f"ionq round trip of {g.name} with an unset parameter: same gate back (or refused)")
+
+
 ION_BAD_JSON = [
     {"gate": "v", "targets": [0]},
     {"gate": "s", "targets": [0], "controls": [1]},
@@ -518,6 +535,7 @@ def shapes(tier, seed):
     for spec in ION_UNSUPPORTED:
         out.append(Shape(f"ionq/refuse/{spec[0]}", h_ionq_refuse, dict(spec=spec), modules=M_IONQ))
     out.append(Shape("ionq/import-refuse", h_ionq_import_refuse, {}, modules=M_IONQ))
+    out.append(Shape("ionq/unset-parameter", h_ionq_unset, {}, modules=()))
     out.append(Shape("canary/ionq/parameter", h_ionq, dict(circuits=[([("CRZ", 1, (0, 2), "sym"), ("H", 0, None, None)], None)], canary=True),
                      modules=M_IONQ, canary=True))
     # ---- (2) ProjectQ (concrete enumeration; translate_projectq is NOT shimmed)
